@@ -205,11 +205,15 @@ func classify(r interface{}) string {
 	return "panic other:" + hxs(msg)
 }
 
+// panicPrefix is prepended to the result when the case panics (context the case already established).
+var panicPrefix string
+
 // run executes f, converting a panic into a result string.
 func run(f func() string) (res string) {
+	panicPrefix = ""
 	defer func() {
 		if r := recover(); r != nil {
-			res = classify(r)
+			res = panicPrefix + classify(r)
 			if tape != nil {
 				res += fmt.Sprintf(" consumed=%d", tape.consumed)
 			}
